@@ -98,6 +98,19 @@ CHECKS = [
      "validating threads (call granularity; line granularity bound 1), gives each consumer exactly the errors of the "
      "reference-free equivalent schema and leaves its resolver's scope untouched.",
      "preemption at Python call/line boundaries only; GIL-atomic container operations assumed", "5 C18"),
+    ("C14", "exploration", "exhaustive enumeration of documents x every path x both fragment spellings (positive) and of every non-addressing token per container (negative) vs. an independent RFC 6901/3986 codec",
+     "For every document built from a 23-key hostile alphabet (nesting depth <= 2-3, arrays of length 0-3, distinct marker "
+     "leaves) and EVERY path into it, in the minimal and the fully percent-encoded spelling, resolve_fragment returns the "
+     "identical object and a validator with that $ref behaves as the marker schema; every token that addresses nothing "
+     "(missing key, index = len, -, -1, 01, +1, ' 1', 1_0, 1.0, non-ASCII digits, any token on scalars and strings) raises "
+     "RefResolutionError and nothing else.",
+     "mc/ref/pointer.py written from the RFCs; documents deeper than 3 outside the bound", "5 C14"),
+    ("C17", "exploration", "exhaustive enumeration of error collections in every arrival order vs. an independent path trie",
+     "For every error collection produced by singles + all ordered pairs (+ sibling groups) x U_d x 4 drafts, in EVERY arrival "
+     "order (<= 5 errors; rotations + reversal above), ErrorTree construction does not raise, every error is found where its "
+     "path says, membership/iteration/total_errors/len agree with a path trie, and indexing an existing error-free element "
+     "of a fresh tree gives an empty tree.",
+     "cap on permutations above 5 errors reported in the evidence; one open known finding (node instance after a propertyNames error)", "5 C17"),
     ("C19", "model_checking", "exhaustive enumeration of CLI configurations (instance lists as folded histories) vs. a fold model; real subprocesses for the exit status",
      "Every combination of schema-file state x instance lists of length 0-3 (stdin for length 0) x output mode x error format "
      "x --validator x --base-uri (22.7k configurations through cli.run, 323 real `python -m jsonschema` processes as a "
